@@ -236,17 +236,20 @@ Definition format_of_well_known (w : str) : option str :=
   if str_eqb w (s "ipv4") then Some (s "ipv4") else
   if str_eqb w (s "ipv6") then Some (s "ipv6") else None.
 
-(* validation.go:76-138 applyStringConstraints: len and not_in are not read; in/const values are
-   written as untagged scalar nodes *)
+(* validation.go:76-140 applyStringConstraints: len and not_in are not read; in/const values are
+   written as scalar nodes tagged !!str (YStr): the emitter quotes a value that would otherwise be
+   resolved as a number, a boolean or null ("123", "true", "null", ""), so a YAML 1.2 reader gets the
+   string itself.  (Before the repair the nodes carried no tag, i.e. YPlain, which lost such values - the former
+   defect class string-value-untagged-scalar - and made libopenapi dereference nil on const "".) *)
 Definition string_entries (r : rules) : list (str * ynode) :=
   oent (opos (r_min_len r)) "minLength" ynat ++
   oent (opos (r_max_len r)) "maxLength" ynat ++
   oent (r_pattern r) "pattern" YStr ++
   oent (match r_well_known r with Some w => format_of_well_known w | None => None end) "format" YStr ++
-  (match r_str_in r with [] => [] | l => [(s "enum", YSeq (map YPlain l))] end) ++
-  oent (r_str_const r) "const" YPlain.
+  (match r_str_in r with [] => [] | l => [(s "enum", YSeq (map YStr l))] end) ++
+  oent (r_str_const r) "const" YStr.
 
-(* validation.go:140-340 applyInt32/Int64/Float/DoubleConstraints: gte -> minimum,
+(* validation.go:142-342 applyInt32/Int64/Float/DoubleConstraints: gte -> minimum,
    lte -> maximum (both through float64); gt / lt -> base.DynamicValue[bool,float64]{B: v} whose
    selector N stays 0, so libopenapi renders the A side: the boolean false; const and in as untagged
    scalar nodes holding the decimal text *)
@@ -344,7 +347,6 @@ Inductive c19_defect :=
   | ReversedRange            (* upper bound below lower bound means "outside" for the rules, conjunction in the schema *)
   | StringLenIgnored
   | StringNotInIgnored
-  | UntaggedStringScalar     (* string in/const value written as an untagged YAML scalar that is not read back as a string *)
   | ItemRulesIgnored         (* repeated.items / map.values rules are not published *)
   | ZeroMaxDropped.          (* max_len / max_items / max_pairs = 0 is not published *)
 
@@ -358,7 +360,6 @@ Definition c19_defect_str (d : c19_defect) : str :=
   | ReversedRange => s "reversed-range-published-as-conjunction"
   | StringLenIgnored => s "string-len-ignored"
   | StringNotInIgnored => s "string-not-in-ignored"
-  | UntaggedStringScalar => s "string-value-untagged-scalar"
   | ItemRulesIgnored => s "element-rules-ignored"
   | ZeroMaxDropped => s "zero-maximum-count-dropped"
   end.
@@ -404,9 +405,7 @@ Definition defects_C19 (fs : fspec) (r : rules) : list c19_defect :=
       (if is_string_kind k then
          (if is_zero (r_max_len r) then [ZeroMaxDropped] else []) ++
          (if isSome (r_len r) then [StringLenIgnored] else []) ++
-         (if nonempty (r_str_not_in r) then [StringNotInIgnored] else []) ++
-         (if forallb (reads_as_string reader12) (r_str_in r ++ match r_str_const r with Some c => [c] | None => [] end)
-          then [] else [UntaggedStringScalar])
+         (if nonempty (r_str_not_in r) then [StringNotInIgnored] else [])
        else [])
   end.
 
